@@ -964,6 +964,71 @@ theorem cmp_typed_value (env : List (List Value)) (schema : List (List Nat)) (op
   · exact decide_eq_decide.2 (cmpInt_ge x y)
   · exact decide_eq_decide.2 (cmpInt_gt x y)
 
+/-! ## The "Maybe" pass: a may-fit argument is wrapped in a `TypeAssertion`; a strict call over it is still NULL on NULL -/
+
+/-- no descriptor of `FunctionMap()` declares a parameter of type NULL (generated table) -/
+theorem table_params_nonnull : ∀ e ∈ Octo.Gen.Strict.table, ∀ p ∈ e.params, p ≠ 0 := by decide
+
+/-- the column holding NULL, passed through the Maybe pass's assertion (or bare), evaluates to NULL: the assertion's
+    target is `declared | NULL`, so NULL is one of the expected TypeIDs -/
+theorem eval_argP_null (p : Nat) (s : FTy) (i : Nat) (hp0 : p ≠ 0) (names : List Nat) (vals : List Value)
+    (outer : List (List Value)) (souter : List (List Nat))
+    (hv : eval (vals :: outer) (materialize (names :: souter) (.var s.toTy i)) = .val .null) :
+    eval (vals :: outer) (materialize (names :: souter) (argP true p s i)) = .val .null := by
+  unfold argP
+  split
+  · rename_i hm
+    have hp : p ≠ anyId := by
+      intro he; subst he; rw [isF_any] at hm; simp at hm
+    simp only [materialize] at hv ⊢
+    simp only [eval] at hv ⊢
+    rw [hv]
+    have hc := expectedIds_target_null p hp hp0
+    simp only [List.contains_iff_mem] at hc
+    simp [Value.rank, hc]
+  · exact hv
+
+/-- **Strict call through the Maybe pass.** For a strict descriptor with declared parameter types `ps`, applied to
+    columns of flat static types `ss` (e.g. `NULL | Boolean | String`) — each argument passed bare or wrapped in the
+    assertion `FunctionExpression.Typecheck` builds, whose static type is `TypeIntersection(declared | NULL, column type)` —
+    if the arguments evaluate (all assertions hold) and a column whose type admits NULL holds NULL, the call is NULL.
+    Whatever the body, whichever overload was picked. -/
+theorem maybe_pass_strict_null (env : List (List Value)) (schema : List (List Nat)) (ty : Ty) (d : Desc)
+    (hstrict : d.strict = true) (ps : List Nat) (ss : List FTy) (vs : List Value)
+    (hvals : evalList env (materializeList schema (buildArgs true ps ss 0)) = vs.map Res.val)
+    (i : Nat) (p : Nat) (s : FTy) (hp : ps[i]? = some p) (hs : ss[i]? = some s) (hp0 : p ≠ 0) (h0 : 0 ∈ s)
+    (hnull : vs[i]? = some .null) :
+    eval env (materialize schema (.call ty d (buildArgs true ps ss 0))) = .val .null := by
+  have hget := buildArgs_get true ps ss 0 i p s hp hs
+  exact strict_null env schema ty d _ vs hstrict hvals i _ hget (argP_nullable p s (0 + i) hp0 h0) hnull
+
+/-- `NOT c0` over a column of static type `NULL | Boolean | String` holding NULL / TRUE / 'x', with the expression the
+    typechecker builds (assertion of static type `NULL | Boolean`, target `NULL | Boolean`): NULL, FALSE, the assertion's error -/
+example :
+    let e := materialize [[0]] (.call .any (tableDesc nmNot 0 fnNot) (buildArgs true [3] [[0, 3, 4]] 0))
+    eval [[.null]] e = .val .null ∧ eval [[.bool true]] e = .val (.bool false) ∧
+    eval [[.str [120]]] e = .err ⟨[.fnArg 0], invalidTypeTag⟩ := by
+  refine ⟨?_, ?_, ?_⟩ <;>
+    simp [materialize, materializeList, buildArgs, argP, isF, viewF, nonNullableF, assertTyF, targetF, anyId, FTy.toTy,
+      primTy, expectedIds, Ty.id, resolveVar, findField, eval, evalArgs, lookupVar, nullCheckIndices, not_strict, nullCheckIdx,
+      PExpr.ty, nullIs, nullRel, nullRelMax, applyFn, nullCheck, isNull, Value.rank, wrapBody, tableDesc, fnNot, boolField,
+      Err.wrap]
+
+/-- **what the bare intersection would do** (the assertion typed `TypeIntersection(declared, column type)` = `Boolean`,
+    NULL dropped): the NULL check is elided and `NOT NULL` comes out TRUE -/
+example : eval [[.null]] (materialize [[0]] (.call .any ⟨true, fnNot⟩
+    [.assert (FTy.toTy [3]) (FTy.toTy [0, 3]) (.var (FTy.toTy [0, 3, 4]) 0)])) = .val (.bool true) := by
+  simp [materialize, materializeList, FTy.toTy, primTy, expectedIds, Ty.id, resolveVar, findField, eval, evalArgs,
+    lookupVar, nullCheckIndices, nullCheckIdx, PExpr.ty, nullIs, nullRel, applyFn, nullCheck, Value.rank, wrapBody, fnNot,
+    boolField]
+
+/-- resolution of `not(NULL|Boolean|String)`: descriptor 0, strict, one argument whose static type admits NULL;
+    `upper(NULL|Int|String)` likewise; `<` over a mixed union has no overload -/
+example : ((typecheckCall nmNot [[0, 3, 4]]).map fun r => (r.1.idx, r.1.strict, r.2.map fun a => nullIs a.ty)) =
+    some (0, true, [true]) := by decide
+example : (typecheckCall nmLt [[0, 1, 4], [1]]).isNone = true ∧ (typecheckCall nmLt [[0, 1], [1]]).isSome = true := by
+  decide
+
 /-! ## The property, full strength -/
 
 /-- **C11**, as stated: (1) AND / OR are the Kleene folds for every operand list; (2) NOT's table; (3) every
